@@ -14,6 +14,16 @@
    finding copy-without-id-property-drops-partner).  Electrode copies (dc_copy) are covered by the correspondence — evaluated
    on every generated history and compared with the implementation — and by the oracle, not by theorems.
 
+   OUTSIDE THE MODEL (compared by the oracle on the implementation only, or not at all):
+   - the partner of a masked large-loop / electrode copy is copied WHOLE by [em_copy] / [dc_copy]; the code masks it by the
+     Tx-ID / A-B intersection (base.py copy_complement of large loops, direct_current.py copy_complement) — only vertex COUNTS
+     of the copied side are modelled, the kept loops are an oracle check;
+   - [ids e && ids q] is a static flag of the two entities; the code tests the id data after applying the mask;
+   - direct_current.py raises further ValueError/KeyError on malformed metadata assignments (missing link keys on an unlinked
+     electrode are modelled; other malformed dictionaries are not generated);
+   - [OParam] (pitch, roll, yaw, offsets) exists for the airborne families only ([is_airborne]), as set_metadata does;
+     [em_wave] re-uses the nested Waveform dict only when it carries a "Timing mark", as the waveform setter does.
+
    [inv s w u1 u2] : the entities u1, u2 of workspace w exist with opposite roles, the stored metadata of both is the same
    dictionary fd, fd names u1 under u1's link key and u2 under u2's, and whichever of the two holds a cached dict reads
    exactly fd ([inv_reads] spells this out through the getters). *)
